@@ -379,9 +379,11 @@ Lemma node_ok_parts c ch dn nd : node_okb c ch dn nd = true ->
   (forall k, In k (pkw_names s) -> In k (dn ++ keys nd)) /\
   (forall k, In k (dn ++ keys nd) -> In k (pkw_names s) \/ (cs_varkw s = true /\ ~ In k (names_of (cs_named s)))) /\
   s_norm_ok c (map sk (firstn n ch)) = true /\
-  (cls_eqb c CBlockDiag && existsb is_diag_like (firstn n ch)) = false.
+  (cls_eqb c CBlockDiag && existsb is_diag_like (firstn n ch)) = false /\
+  forallb (fun k => negb (is_dt_key k)) dn = true.
 Proof.
   unfold node_okb, node_okS. rewrite sk_list_map, map_length. intros H.
+  apply andb_prop in H as [H HDT].
   repeat (apply andb_prop in H as [H ?]).
   cbv zeta. repeat split.
   - now apply Nat.leb_le.
@@ -399,47 +401,68 @@ Proof.
   - now rewrite firstn_map in H1.
   - apply negb_true_iff in H0. rewrite firstn_map in H0.
     now rewrite (existsb_sk is_diag_like s_diag_like _ is_diag_like_sk).
+  - exact HDT.
 Qed.
 
-Lemma ctor_stored c ch dn nd :
+(* the keyword arguments may be passed in ANY order: only the (name -> value) function matters *)
+Lemma ctor_stored_gen c ch dn nd kw :
   spec_okb (spec_of c) = true -> node_okb c ch dn nd = true ->
-  ctor defdt c (args_of ch dn) (dkw_of ch dn ++ lift nd) = Some (AOp c ch dn nd (dflt_attrs defdt c)).
+  NoDup (keys kw) -> (forall k, lookup k kw = lookup k (dkw_of ch dn ++ lift nd)) ->
+  ctor defdt c (args_of ch dn) kw = Some (AOp c ch dn nd (dflt_attrs defdt c)).
 Proof.
-  intros SOK NOK. pose proof (node_ok_parts _ _ _ _ NOK) as P. cbv zeta in P.
-  destruct P as (LEN & NPOS & SD & SN & DJ & DIFF & PKW & KEYS & NORM & BD).
+  intros SOK NOK NKW LKW. pose proof (node_ok_parts _ _ _ _ NOK) as P. cbv zeta in P.
+  destruct P as (LEN & NPOS & SD & SN & DJ & DIFF & PKW & KEYS & NORM & BD & _).
   set (s := spec_of c) in *. set (n := length ch - length dn) in *.
   assert (ND : NoDup (names_of (cs_named s))).
   { unfold spec_okb in SOK. apply andb_prop in SOK as [SOK _]. apply andb_prop in SOK as [SOK _]. now apply znodupb_nodup. }
   assert (LSK : length (skipn n ch) = length dn) by (rewrite skipn_length; unfold n; lia).
   assert (KDKW : keys (dkw_of ch dn) = dn).
   { unfold dkw_of, nargs. fold n. apply keys_combine. lia. }
-  assert (KKW : keys (dkw_of ch dn ++ lift nd) = dn ++ keys nd).
+  assert (KST : keys (dkw_of ch dn ++ lift nd) = dn ++ keys nd).
   { unfold keys at 1. rewrite map_app. fold (keys (dkw_of ch dn)). fold (keys (lift nd)). now rewrite KDKW, keys_lift. }
+  assert (KIN : forall k, In k (keys kw) <-> In k (dn ++ keys nd)).
+  { intros k. rewrite <- KST. split; intros H.
+    - apply in_lookup in H as [v Hv]. rewrite LKW in Hv. eapply lookup_in; eauto.
+    - apply in_lookup in H as [v Hv]. rewrite <- LKW in Hv. eapply lookup_in; eauto. }
   unfold ctor. fold s.
-  rewrite (bind_stored s (args_of ch dn) (dkw_of ch dn ++ lift nd) SOK).
+  rewrite (bind_stored s (args_of ch dn) kw SOK).
   2:{ intros V. unfold args_of, nargs. fold n. rewrite firstn_length. rewrite <- (NPOS V). unfold n. lia. }
-  2:{ intros k Hk. apply has_key_in. rewrite KKW. auto. }
-  2:{ intros k Hk. rewrite KKW in Hk. auto. }
+  2:{ intros k Hk. apply has_key_in. apply KIN. auto. }
+  2:{ intros k Hk. apply KIN in Hk. auto. }
   unfold args_of at 1, nargs. fold n. rewrite BD.
   unfold args_of, nargs. fold n. rewrite (norm_pos_ok c _ _ NORM).
   f_equal. unfold base_init.
-  assert (KEYS' : forall k, In k (keys (dkw_of ch dn ++ lift nd)) -> In k (pkw_names s) \/ ~ In k (names_of (cs_named s))).
-  { intros k Hk. rewrite KKW in Hk. destruct (KEYS k Hk) as [H|[_ H]]; auto. }
-  assert (NKW : NoDup (keys (dkw_of ch dn ++ lift nd))).
-  { rewrite KKW. apply nodup_app_intro; auto using ssortedb_nodup. }
-  destruct (split_sorted (dkw_of ch dn) nd (fwd_kw (stored_named s (dkw_of ch dn ++ lift nd)) ++ extra_of s (dkw_of ch dn ++ lift nd)))
-    as [E1 E2].
+  assert (KEYS' : forall k, In k (keys kw) -> In k (pkw_names s) \/ ~ In k (names_of (cs_named s))).
+  { intros k Hk. apply KIN in Hk. destruct (KEYS k Hk) as [H|[_ H]]; auto. }
+  destruct (split_sorted (dkw_of ch dn) nd (fwd_kw (stored_named s kw) ++ extra_of s kw)) as [E1 E2].
   - apply ssortedb_ss. now rewrite KDKW.
   - now apply ssortedb_ss.
   - unfold dkw_of, nargs. fold n. apply Forall_forall. intros [k v] Hin. simpl.
     apply in_combine_r in Hin. eapply forallb_In; eauto.
   - intros k Hk. rewrite KDKW in Hk. auto.
   - apply fwd_nodup; auto.
-  - intros k. apply fwd_lookup; auto. intros k0 Hk0. apply has_key_in. rewrite KKW. auto.
+  - intros k. rewrite <- LKW. apply fwd_lookup; auto. intros k0 Hk0. apply has_key_in. apply KIN. auto.
   - rewrite E1, E2. f_equal.
     + unfold dkw_of, nargs. fold n. rewrite snd_combine by lia. apply firstn_skipn.
     + exact KDKW.
     + unfold dflt_attrs. fold s. f_equal. apply attrs_from_stored; auto.
+Qed.
+
+Lemma stored_kw_nodup c ch dn nd : node_okb c ch dn nd = true -> NoDup (keys (dkw_of ch dn ++ lift nd)).
+Proof.
+  intros NOK. pose proof (node_ok_parts _ _ _ _ NOK) as P. cbv zeta in P.
+  destruct P as (LEN & NPOS & SD & SN & DJ & _).
+  assert (KDKW : keys (dkw_of ch dn) = dn).
+  { unfold dkw_of, nargs. apply keys_combine. rewrite skipn_length. lia. }
+  unfold keys. rewrite map_app. fold (keys (dkw_of ch dn)). fold (keys (lift nd)). rewrite KDKW, keys_lift.
+  apply nodup_app_intro; auto using ssortedb_nodup.
+Qed.
+
+Lemma ctor_stored c ch dn nd :
+  spec_okb (spec_of c) = true -> node_okb c ch dn nd = true ->
+  ctor defdt c (args_of ch dn) (dkw_of ch dn ++ lift nd) = Some (AOp c ch dn nd (dflt_attrs defdt c)).
+Proof.
+  intros SOK NOK. apply ctor_stored_gen; auto. eapply stored_kw_nodup; eauto.
 Qed.
 
 (* ------------------------------------------------------------------ nested induction over operator trees *)
